@@ -114,12 +114,12 @@ type ca struct {
 	pem  []byte
 }
 
-func newCA(cn string) (*ca, error) {
+func newCA(cn string, dns ...string) (*ca, error) {
 	key, err := ecdsa.GenerateKey(elliptic.P256(), rand.Reader)
 	if err != nil {
 		return nil, err
 	}
-	tmpl := &x509.Certificate{SerialNumber: big.NewInt(time.Now().UnixNano()), Subject: pkix.Name{CommonName: cn}, NotBefore: time.Now().Add(-time.Hour),
+	tmpl := &x509.Certificate{SerialNumber: big.NewInt(time.Now().UnixNano()), Subject: pkix.Name{CommonName: cn}, DNSNames: dns, NotBefore: time.Now().Add(-time.Hour),
 		NotAfter: time.Now().Add(24 * time.Hour), IsCA: true, KeyUsage: x509.KeyUsageCertSign | x509.KeyUsageDigitalSignature, BasicConstraintsValid: true}
 	der, err := x509.CreateCertificate(rand.Reader, tmpl, tmpl, &key.PublicKey, key)
 	if err != nil {
@@ -248,49 +248,73 @@ func runC17(args []string) error {
 		methods = append(methods, method{"/" + regattapb.Maintenance_ServiceDesc.ServiceName + "/" + m.StreamName, true, maintTok})
 	}
 	hm := sum.hist("methods")
-	for _, m := range methods {
-		other := maintTok
-		if m.token == maintTok {
-			other = tablesTok
-		}
-		type hv struct {
-			h     *string
-			right bool
-			what  string
-		}
-		s := func(x string) *string { return &x }
-		variants := []hv{{nil, false, "none"}, {s(""), false, "empty"}, {s("Bearer " + m.token), true, "right"}, {s("bearer " + m.token), true, "right-lower-scheme"},
-			{s("BEARER " + m.token), true, "right-upper-scheme"}, {s("Bearer " + m.token[:len(m.token)-1]), false, "prefix"}, {s("Bearer " + m.token + "x"), false, "suffix"},
-			{s("Bearer " + strings.ToUpper(m.token)), false, "upper"}, {s("Bearer " + strings.ToLower(m.token)), false, "lower"}, {s("Bearer  " + m.token), false, "two-spaces"},
-			{s("Bearer " + m.token + " "), false, "trailing-space"}, {s("Basic " + m.token), false, "other-scheme"}, {s(m.token), false, "no-scheme"},
-			{s("Bearer " + other), false, "other-service-token"}, {s("Bearer"), false, "scheme-only"}}
-		for _, v := range variants {
-			before := ct.calls.Load()
-			code := callMethod(conn, m.full, m.streaming, v.h)
-			reached := ct.calls.Load() != before
-			passed := code != codes.Unauthenticated
-			hm.Inc(m.full)
-			sum.Evaluations++
-			if !v.right {
-				sum.DistinctNontrivial++
+	runMethods := func(conn *grpc.ClientConn, methods []method, flavour string) {
+		for _, m := range methods {
+			other := maintTok
+			if m.token == maintTok {
+				other = tablesTok
 			}
-			in := map[string]any{"method": m.full, "header": v.what}
-			if !v.right && (passed || reached) {
-				sum.violate(sum.Evaluations, "a protected method was reached without the right bearer token", in, fmt.Sprint(code, reached))
+			type hv struct {
+				h     *string
+				right bool
+				what  string
 			}
-			if v.right && !passed {
-				sum.violate(sum.Evaluations, "a protected method refused the right bearer token", in, fmt.Sprint(code))
-			}
-			hdr := "None"
-			if v.h != nil {
-				hdr = "(Some " + cBytes([]byte(*v.h)) + ")"
-				if *v.h == "" {
-					hdr = "(Some [])"
+			s := func(x string) *string { return &x }
+			variants := []hv{{nil, false, "none"}, {s(""), false, "empty"}, {s("Bearer " + m.token), true, "right"}, {s("bearer " + m.token), true, "right-lower-scheme"},
+				{s("BEARER " + m.token), true, "right-upper-scheme"}, {s("Bearer " + m.token[:len(m.token)-1]), false, "prefix"}, {s("Bearer " + m.token + "x"), false, "suffix"},
+				{s("Bearer " + strings.ToUpper(m.token)), false, "upper"}, {s("Bearer " + strings.ToLower(m.token)), false, "lower"}, {s("Bearer  " + m.token), false, "two-spaces"},
+				{s("Bearer " + m.token + " "), false, "trailing-space"}, {s("Basic " + m.token), false, "other-scheme"}, {s(m.token), false, "no-scheme"},
+				{s("Bearer " + other), false, "other-service-token"}, {s("Bearer"), false, "scheme-only"}}
+			for _, v := range variants {
+				before := ct.calls.Load()
+				code := callMethod(conn, m.full, m.streaming, v.h)
+				reached := ct.calls.Load() != before
+				passed := code != codes.Unauthenticated
+				hm.Inc(m.full)
+				sum.Evaluations++
+				if !v.right {
+					sum.DistinctNontrivial++
 				}
+				in := map[string]any{"method": m.full, "header": v.what, "server": flavour}
+				if !v.right && (passed || reached) {
+					sum.violate(sum.Evaluations, "a protected method was reached without the right bearer token", in, fmt.Sprint(code, reached))
+				}
+				if v.right && !passed {
+					sum.violate(sum.Evaluations, "a protected method refused the right bearer token", in, fmt.Sprint(code))
+				}
+				hdr := "None"
+				if v.h != nil {
+					hdr = "(Some " + cBytes([]byte(*v.h)) + ")"
+					if *v.h == "" {
+						hdr = "(Some [])"
+					}
+				}
+				tokf.Add(fmt.Sprintf("{| k_token := %s; k_override := true; k_header := %s; k_impl := %s |}", cBytes([]byte(m.token)), hdr, oBool(passed)), fmt.Sprint(in))
 			}
-			tokf.Add(fmt.Sprintf("{| k_token := %s; k_override := true; k_header := %s; k_impl := %s |}", cBytes([]byte(m.token)), hdr, oBool(passed)), fmt.Sprint(in))
 		}
 	}
+	runMethods(conn, methods, "leader")
+	// the follower registers the read-only flavour of the Tables service (cmd/follower.go): same token, same rule
+	fsrv, err := cmd.VerifCreateAPIServer(zap.NewNop(), func(r grpc.ServiceRegistrar) {
+		regattapb.RegisterTablesServer(r, &regattaserver.ReadonlyTablesServer{TablesServer: regattaserver.TablesServer{Tables: ct, AuthFunc: cmd.VerifAuthFunc(tablesTok)}})
+	})
+	if err != nil {
+		return err
+	}
+	go func() { _ = fsrv.Serve() }()
+	defer fsrv.Shutdown()
+	fconn, err := grpc.NewClient(fsrv.Addr().String(), grpc.WithTransportCredentials(insecure.NewCredentials()))
+	if err != nil {
+		return err
+	}
+	defer fconn.Close()
+	var tmethods []method
+	for _, m := range methods {
+		if m.token == tablesTok {
+			tmethods = append(tmethods, m)
+		}
+	}
+	runMethods(fconn, tmethods, "follower")
 	// other services are unaffected
 	for _, h := range []*string{nil, func() *string { x := "Bearer nonsense"; return &x }()} {
 		code := callMethod(conn, "/regatta.v1.KV/Range", false, h)
@@ -314,7 +338,8 @@ func runC17(args []string) error {
 	if err := os.MkdirAll(dir, 0o700); err != nil {
 		return err
 	}
-	good, err := newCA("good-ca")
+	// the trusted CA itself carries the allowed common name and hostname: only the LEAF certificate counts
+	good, err := newCA("client", "client.local")
 	if err != nil {
 		return err
 	}
